@@ -456,7 +456,11 @@ func c07Linearize(base *mState, ops []*c07Op, after map[int]int, pos []int, fina
 	}
 	rec0 = func(st *mState, lastPos int) bool {
 		if len(order) == n {
-			if st.canon() != final {
+			mc := st.canon()
+			if i := strings.Index(mc, "@"); i >= 0 {
+				mc = mc[:i] // hooks / channels are not part of what serverCanon reads
+			}
+			if mc != final {
 				best = fmt.Sprintf("replies are explained by order %v but the final state is %q, model gives %q", order, final, st.canon())
 				return false
 			}
@@ -548,6 +552,10 @@ func c07Scenarios(tier string) []c07Params {
 		{Name: "fine:nearby-vs-within", Pre: pre, Conns: [][][]string{one("NEARBY k POINT 1 1"), one("WITHIN k BOUNDS 0 0 5 5")}, Fine: true},
 		{Name: "fine:evalro-vs-evalro", Pre: pre, Conns: [][][]string{{{"EVALRO", "return tile38.call('GET','k','a')", "0"}}, {{"EVALRO", "return tile38.call('GET','k','b')", "0"}}}, Fine: true},
 		{Name: "fine:set-vs-get", Pre: pre, Conns: [][][]string{one("SET k a FIELD f 2 POINT 3 3"), one("GET k a WITHFIELDS")}, Fine: true},
+		// a channel whose WHEREEVAL filter runs on every write, next to a lock-free script
+		{Name: "evalna-vs-set-with-whereeval-channel", Pre: append(append([][]string{}, pre...), []string{"SETCHAN", "whe", "WITHIN", "k", "WHEREEVAL", "return FIELDS.f ~= nil and FIELDS.f > 0", "0", "FENCE", "BOUNDS", "-90", "-180", "90", "180"}),
+			Conns: [][][]string{{{"EVALNA", "local a = tile38.call('GET','k','a'); local b = tile38.call('GET','k','b'); return {a, b}", "0"}}, one("SET k a FIELD f 2 POINT 3 3")},
+			Model: map[string][][]string{"0.0": {}}},
 		{Name: "set-vs-sweeper", Pre: append(pre, w("SET k e EX 1.1 POINT 6 6")), Conns: [][][]string{one("SET k e POINT 6 6"), one("GET k e")}, Expire: true},
 	}
 	if tier == "thorough" {
